@@ -124,6 +124,24 @@ def gen_headers(ctx):
             return [val(d + 1) for _ in range(rng.randrange(0, 4))]
         return {rng.choice(strs): val(d + 1) for _ in range(rng.randrange(0, 4))}
     out = []
+    # shallow headers with many structural characters, many members, long strings
+    # (a decoder that guards on counts of brackets / members / length instead of on
+    # the grammar refuses these although they are ordinary header objects)
+    for ch in ["[", "{", "]", "}", '"', "\\", ":", ",", "[{", "{{tpl}}", "\u00e9", "/", "e30", "."]:
+        for n in (1, 33, 65, 100, 300):
+            out.append({"alg": "HS256", "kid": ch * n})
+    out.append({"alg": "HS256", **{"m%d" % i: i for i in range(120)}})
+    out.append({"alg": "HS256", "jwk": {"k%d" % i: [i] for i in range(40)}})
+    out.append({"alg": "HS256", "x5c": ["a" * 40] * 70})
+    out.append({"alg": "HS256", "crit": ["c%d" % i for i in range(80)], **{"c%d" % i: {} for i in range(80)}})
+    out.append({"alg": "HS256", "kid": "k" * 5000})
+    out.append({"alg": "HS256", "n": [[[], {}], [{}, []]] * 30})
+    deep = cur = []
+    for _ in range(41):
+        nxt = []
+        cur.append(nxt)
+        cur = nxt
+    out.append({"alg": "HS256", "deep": deep})
     for _ in range(ctx.scale(400, 8000)):
         h = {"alg": rng.choice(["HS256", "none", "ES512"])}
         for _ in range(rng.randrange(0, 5)):
@@ -304,8 +322,16 @@ def run(ctx):
         dist["json"] += 1
         r = call(lambda: util.json_b64decode(util.json_b64encode(h)))
         if r[0] != "ok" or r[1] != h:
-            ctx.violation({"kind": "json-roundtrip"}, "json_b64decode(json_b64encode(h)) != h for h=%r" % (h,),
-                          {"fn": "json roundtrip", "header": repr(h)})
+            ctx.violation({"kind": "json-roundtrip"}, "json_b64decode(json_b64encode(h)) != h for h=%r" % (repr(h)[:300],),
+                          {"fn": "json roundtrip", "header": repr(h)[:5000]})
+        if not has_float(h) and len(repr(h)) < 6000:
+            try:
+                seg0 = util.json_b64encode(h)
+                d0 = call(util.json_b64decode, seg0)
+                if d0[0] == "ok" or isinstance(d0[1], ValueError):
+                    add("CJB64D %s %s" % (c_hex(seg0), ("(Some %s)" % c_pv(d0[1])) if d0[0] == "ok" else "None"), ("jb64d", seg0))
+            except Exception:
+                pass
         else:
             seg = util.json_b64encode(h)
             if any(ch not in ALPHA for ch in seg):
